@@ -3,10 +3,12 @@ Require Extraction.
 Require Import ExtrOcamlBasic.
 From Coq Require Import ZArith List.
 From Coq.Strings Require Import Byte.
-From TS Require Import Bytes Codec State Prog Ops Interp.
+From TS Require Import Bytes Codec State Prog Ops Names Interp Asm Registry.
 Extraction Language OCaml.
 Extraction "tsmodel.ml"
   Byte.of_N Byte.to_N
   bytes_to_int int_to_bytes uint_to_bytes to_bytes be_to_Z Z_to_be fl2_exact
   run_script run_auth_scripts run_tape init_state exn_name
-  signed_be of_signed_be.
+  signed_be of_signed_be
+  decode encode wf_prog decompile parse_listing tokens_of push_instr print
+  rstep reg_init run_trace run_plugins_of run_contract_of.
